@@ -17,7 +17,7 @@ RULE = ('one run = one seeded history of up to 30 database operations on one eng
         '(assert_fact API, query() API, compiled wrapper taking the goal as argument, compiled clause with the goal inline) and form (inline term '
         'or a variable bound to it); retracts are exhausted, abandoned after k answers (close/drop) or held suspended across other ops. '
         'A case = one operation compared with the list model followed by a full read-back of all 8 predicates, with all arguments unbound and with each argument position bound to every value stored there now or earlier; non-trivial = the predicate '
-        'had >= 1 fact or the op changed the store; distinct = hash of (op kind, route, form, arity, pattern shape, store size bucket, #answers)')
+        'had >= 1 fact or the op changed the store; distinct = hash of (op kind, route, form, predicate, pattern, contents of that predicate in the model)')
 ASSUMPTIONS = [
     'ground facts only (non-ground stored facts are C13); no mutation of a predicate while one of its enumerations is suspended (that is C14)',
     'after clear() the harness reloads its compiled wrapper clauses, as any API user would have to',
@@ -259,7 +259,7 @@ def execute(plan):
                         held.close()
                 model.add(key, [TM.T(t) for t in row], front)
                 log.ev('assert', front, route, form, ki, n_ans)
-                log.key(('assert', front, route, form, key[1], min(len(model.rows(key)), 4)))
+                log.key(('assert', front, route, form, key, tuple(model.rows(key))))
                 if n_ans != 1:
                     log.violation('not-exactly-once', {'op': show_op(op), 'answers': n_ans})
                     break
@@ -294,7 +294,7 @@ def execute(plan):
                         model.remove_id(key, rid)
                     log.ev('retractall', route, form, ki, n_ans, len(matches))
                     if matches:
-                        log.key(('retractall', route, form, key[1], shape, len(matches)))
+                        log.key(('retractall', route, form, key, tuple(pat), tuple(model.rows(key))))
                     if n_ans != 1:
                         log.violation('not-exactly-once', {'op': show_op(op), 'answers': n_ans})
                         break
@@ -317,7 +317,7 @@ def execute(plan):
                         model.remove_id(key, rid)
                     log.ev('retract', route, form, ki, k, len(got), len(want))
                     if matches:
-                        log.key(('retract', route, form, key[1], shape, min(len(matches), 3), k))
+                        log.key(('retract', route, form, key, tuple(pat), k, tuple(model.rows(key))))
                     if got != want:
                         log.violation('wrong-answers', {'op': show_op(op), 'engine': [[TM.show(x) for x in r] for r in got[:6]],
                                                         'model': [[TM.show(x) for x in r] for r in want[:6]]})
@@ -339,7 +339,7 @@ def execute(plan):
                     rid, want = tk['todo'].pop(0)
                     model.remove_id(tk['key'], rid)
                     got = ex.observe(tk['pargs']) if ok else None
-                    log.key(('rstep', tk['op'][1], tk['op'][2], tk['key'][1], len(tk['todo'])))
+                    log.key(('rstep', tk['op'][1], tk['op'][2], tk['key'], len(tk['todo']), tuple(model.rows(tk['key']))))
                 else:
                     want = None
                     got = ex.observe(tk['pargs']) if ok else None
@@ -396,7 +396,7 @@ def execute(plan):
                 want = [b for _, b in ex.model_matches(key, pat)]
                 log.ev('query', route, ki, len(got))
                 if want:
-                    log.key(('query', route, key[1], tuple(p[0] for p in pat), min(len(want), 4)))
+                    log.key(('query', route, key, tuple(pat), tuple(model.rows(key))))
                 if got != want:
                     log.violation('wrong-answers', {'op': show_op(op), 'engine': [[TM.show(x) for x in r] for r in got[:6]],
                                                     'model': [[TM.show(x) for x in r] for r in want[:6]]})
